@@ -157,6 +157,11 @@ func ruleTeletextNational(p *Prog, l *Ledger, tier string) {
 		}
 	}
 	key := rule + "|installed"
+	if len(pairs) == 0 && undecided == "" {
+		// nothing is installed into a copy of the G0 table at all: the decoder holds its tables in another way (an
+		// overlay consulted when decoding, a precomputed table per code); the rule does not evaluate that shape
+		undecided = "updateCharset does not patch a copy of the G0 table (no store of a national option character into the decoder's table was found)"
+	}
 	if undecided != "" {
 		l.Undecide(rule, name, key, "", "the installation of the national option characters is not in a shape the rule evaluates: "+undecided)
 		return
